@@ -722,6 +722,9 @@ class Interp:
         if isinstance(op, (ast.BitAnd, ast.BitOr)):
             if is_bool(a) and is_bool(b):
                 return AND(a, b) if isinstance(op, ast.BitAnd) else OR(a, b)
+            m = self.ctx.models.binop_hook(self, op, a, b, node)
+            if m is not NotImplemented:
+                return m
             raise Unsupported("bitwise op on non-bools", node)
         if isinstance(op, ast.Add):
             # list concatenation
@@ -930,6 +933,9 @@ class Interp:
                 if m is not NotImplemented:
                     return m
                 raise PyRaise("AttributeError", "%s.%s" % (o.cls, attr))
+            m = self.ctx.models.attr_hook(self, base, o, attr, node)
+            if m is not NotImplemented:
+                return m
             return SFunc("objmethod", target=base, name=attr)
         if tag(base) == "ghostns":
             if (base[1].oid, attr) not in run.ghost:
